@@ -25,8 +25,8 @@ ASSUMPTIONS = [
     "add_boundary(type='exchange'): the external-compartment heuristic is not modelled; a refusal (ValueError/"
     "RuntimeError) is accepted if it changes nothing.",
     "List order is not compared (identifier sets are).",
-    "Duplicate ids inside one add_reactions/add_metabolites list, `*= 0`, direct gene.id assignment, whitespace ids "
-    "and Model.medium (see C18) are not generated: no documentation defines them.",
+    "Duplicate ids inside one add_reactions/add_metabolites list, `*= 0`, direct gene.id assignment and Model.medium "
+    "(see C18) are not generated: no documentation defines them.",
 ]
 
 NAMES = ["add_reactions", "readd", "readd", "detached_bounds", "remove_reactions", "add_metabolites", "remove_metabolites", "add_boundary", "rxn_add_mets", "bounds",
@@ -122,10 +122,25 @@ def hyp_phase(ctx):
     ctx.run_hypothesis(case_strategy(ctx.params["max_ops"]), check_case, "edits", ctx.params["max_examples"])
 
 
+def enum_phase(ctx):
+    """All ordered pairs of concrete op instances on two fixed base models after two prefixes (small scope, complete)."""
+    from vfw.props.c01 import ENUM_SPECS
+
+    names = list(dict.fromkeys(NAMES))
+    cases_ = (c for k, c in enumerate(ops.pair_cases(1, ENUM_SPECS, names, in_block=False, per_name=ctx.params["per_name"],
+                                                     prefixes=ops.ENUM_PREFIXES, length=ctx.params.get("length", 2)))
+              if k % ctx.n_shards == ctx.shard)
+    done = ctx.run_enumeration(cases_, check_case, "edits")
+    ctx.exhaustive = bool(done)
+
+
 def phases(tier):
     if tier == "quick":
-        return [Phase("hyp", hyp_phase, shards=8, params={"max_examples": 900, "max_ops": 30, "budget_s": 75, "crash_journal": True})]
-    return [Phase("hyp", hyp_phase, shards=16, params={"max_examples": 2500, "max_ops": 50, "budget_s": 540, "crash_journal": True})]
+        return [Phase("hyp", hyp_phase, shards=8, params={"max_examples": 900, "max_ops": 30, "budget_s": 75, "crash_journal": True}),
+                Phase("pairs", enum_phase, shards=8, params={"per_name": 2, "budget_s": 75, "crash_journal": True})]
+    return [Phase("hyp", hyp_phase, shards=16, params={"max_examples": 2500, "max_ops": 50, "budget_s": 400, "crash_journal": True}),
+            Phase("pairs", enum_phase, shards=16, params={"per_name": 3, "budget_s": 300, "crash_journal": True}),
+            Phase("triples", enum_phase, shards=16, params={"per_name": 1, "length": 3, "budget_s": 300, "crash_journal": True})]
 
 
 CHECKS = {"edits": check_case, "history": check_case}
